@@ -43,10 +43,11 @@ theorem queryPromise_eq {fl : Bool} (prog : List Term) (query : Term) (max : Nat
   rw [callGoal_query _ _ _ hb' hw' hnv']
   simp only [clausesCall, freshId, List.map_cons, List.map_nil, startM, initState_nextId]
 
-/-- the side condition on the run of the VM (`fl = true`, i.e. `call/1` in the fragment; it is
-    empty for `fl = false`): in every thunk evaluation of the search that ends in `call(G)`, the goal
-    `G` dereferences — within the model's inner fuel — to a variable or to a body of the fragment
-    (see `Good`, `ResFine`, `callOK`) -/
+/-- the side condition on the run of the VM (`fl = true`, i.e. control constructs in the fragment; it
+    is empty for `fl = false`): in every thunk evaluation of the search that ends in `call(G)`, the
+    goal `G` dereferences — within the model's inner fuel — to a variable or to a body of the fragment;
+    the same for the goal of every `\\+ G` that is evaluated and, recursively, for the search nested
+    in it (see `Good`, `ResFine`, `callOK`; `VisP`: the thunk evaluations of a search) -/
 def CallsOK (fl : Bool) (F : Nat) (prog : List Term) (query : Term) (max : Nat) : Prop :=
   ∀ k, GoodP fl F k (queryPromise prog (SLD.shift 10 query) max none).1 []
     (queryPromise prog (SLD.shift 10 query) max none).2
@@ -110,7 +111,7 @@ theorem vm_query {fl : Bool} (prog : List Term) (query : Term) (max : Nat) (hfra
       hans0 (by decide) (qHead_shape query') ?_ (by simpa using hs)
     refine ⟨1000000, fun v => .var v, (· - 10), _, [], Nat.le_of_eq hnv0.symm,
       hW2, .collect rfl, .nil rfl, CutsOK.nil _, hq, hgD2, .cons hitem .nil⟩
-  rcases tp_all (tmpl := query') (max := max) (prog := prog) (F := F) hprog k _ [] _ sig m' hd hgood 0 [] r1 hspec.toW hok0
+  rcases tp_all (tmpl := query') (max := max) (prog := prog) hprog F none k _ [] _ sig m' hd hgood 0 [] r1 hspec.toW hok0
       ⟨rfl, by show 0 < 2; omega, initState_cancelAt prog⟩ hmax with hill | hm
   · exact Or.inl hill
   · right
@@ -172,9 +173,10 @@ theorem vm_refines_sld_call (prog : List Term) (query : Term) (max : Nat)
   vm_refines_sld_S prog query max hfrag hmax f1 f2 as1 as2 e1 e2 h1 h2 hcalls
 
 /-- **vm_refines_sld_ctl** (stage 3): program and query in `CtlFrag` (Horn clauses with `!` and the
-    control constructs `call(G)`, `(C -> T ; E)`, `(C -> T)` as goals — in clause bodies, in the query
-    and in the goals that are called), the side condition `CallsOK` on the goals that are called.
-    A cut inside `call/1`, inside the condition or a branch of an if-then(-else) is local. -/
+    control constructs `call(G)`, `(C -> T ; E)`, `(C -> T)`, `once(G)`, `\\+ G` as goals — in clause
+    bodies, in the query and in the goals that are called), the side condition `CallsOK` on the goals
+    that are called.  A cut inside `call/1`, `once/1`, `\\+`, inside the condition or a branch of an
+    if-then(-else) is local. -/
 theorem vm_refines_sld_ctl (prog : List Term) (query : Term) (max : Nat)
     (hfrag : CtlFrag prog query) (hmax : 0 < max)
     (f1 f2 : Nat) (as1 as2 : List Term) (e1 : VM.End) (e2 : SLD.End)
